@@ -35,12 +35,13 @@ def _leafvar(name):
     return common.CUR['ctx'].zvar('leaf.' + name)
 
 
-def _truth(ctx, check, enforcer=None, creds=None):
-    return ctx.summarize(lambda: bool(check({}, creds or {}, enforcer)))
+def _truth(ctx, check, enforcer=None, creds=None, target=None):
+    return ctx.summarize(lambda: bool(check(dict(target or {}), creds or {},
+                                            enforcer)))
 
 
 def _roundtrip(ctx, check, label, detail, enforcer=None, creds=None,
-               semantic=True):
+               semantic=True, target=None):
     from oslo_policy import _parser
     s1 = str(check)
     again = _parser.parse_rule(s1)
@@ -50,8 +51,8 @@ def _roundtrip(ctx, check, label, detail, enforcer=None, creds=None,
     ctx.require(s1 == s2, label + ':text-changed',
                 detail=dict(detail, printed=s1, reprinted=s2))
     if semantic:
-        a = _truth(ctx, check, enforcer, creds)
-        b = _truth(ctx, again, enforcer, creds)
+        a = _truth(ctx, check, enforcer, creds, target)
+        b = _truth(ctx, again, enforcer, creds, target)
         ctx.require_equiv(a, b, label + ':meaning-changed',
                           detail=dict(detail, printed=s1, reprinted=s2))
     return s1, again
@@ -128,7 +129,9 @@ def cubes_lists(tier, seed):
 
 LEAF_KINDS = ['sym:%d', 'role:r%d', 'rule:n%d', 'a.b%d:%%(x)s',
               "'lit%d':%%(y.z)s", 'http://h%d.example/%%(name)s', '@', '!',
-              'True:%%(u.e%d)s']
+              'True:%%(u.e%d)s', '[1,2]:%%(ids)s', '1,2:%%(ids)s',
+              '1e999:%%(x)s', '0x1%d:%%(x)s', '"q%d":%%(x)s', '{1:2}:%%(x)s',
+              '-0.0:%%(x)s', 'None:%%(x)s']
 
 
 def _gen_nested(rng, budget, nleaf):
@@ -177,10 +180,16 @@ def run_nested(ctx, seed, index, budget):
         {'n%d' % i: 'sym:n%d' % i for i in range(4)}))
     creds = {'roles': ctx.roles('role', ['r0', 'r1', 'r2', 'r3'])}
     semantic = 'http:' not in text
+    # generic leaves are compared on targets that make them pass or fail
+    tmenu = [{}, {'ids': [1, 2], 'x': 'inf', 'y': {'z': 'lit0'}},
+             {'ids': (1, 2), 'x': '1', 'y.z': 'lit1'},
+             {'ids': '[1, 2]', 'x': 'None'}, {'ids': '(1, 2)', 'x': '-0.0'},
+             {'x': '{1: 2}'}, {'x': '16'}, {'x': 'q0'}, {'x': 'q1'}]
+    gtarget = dict(ctx.choice('target', tmenu))
     ctx.cover('nested:roundtrip')
     ctx.observe('text', text)
     _roundtrip(ctx, check, 'nested', {'text': text}, enforcer=enf,
-               creds=creds, semantic=semantic)
+               creds=creds, semantic=semantic, target=gtarget)
     # two-level: print -> parse -> print is already a fixpoint; also the
     # reference reading of the printed text agrees with the original tree
     if semantic:
@@ -191,13 +200,17 @@ def run_nested(ctx, seed, index, budget):
                 return ctx.zvar('role.' + t[5:])
             if t.startswith('rule:'):
                 return _leafvar(t[5:])
-            return z3.BoolVal(False)    # generic leaves: empty creds deny
-        want = boolang.text_formula(text, leaf)
-        got = ctx.summarize(lambda: bool(_parser.parse_rule(str(check))(
-            {}, creds, enf)))
-        common.require_decision(ctx, got, want, 'nested:print-meaning',
-                                detail={'text': text,
-                                        'printed': str(check)})
+            return None
+        generic = [t for t in text.replace('(', ' ').replace(')', ' ').split()
+                   if ':' in t and not t.startswith(('sym:', 'role:',
+                                                     'rule:'))]
+        if not generic:
+            want = boolang.text_formula(text, leaf)
+            got = ctx.summarize(lambda: bool(_parser.parse_rule(str(check))(
+                {}, creds, enf)))
+            common.require_decision(ctx, got, want, 'nested:print-meaning',
+                                    detail={'text': text,
+                                            'printed': str(check)})
 
 
 HTTP_LEAVES = ['http://h.example/%(name)s', 'https://h.example/a/b',
